@@ -24,6 +24,14 @@ def run(ctx):
         "keys the schema does not mention are unconstrained (no additionalProperties: false in the FIRST schemas)",
     ]
     n = 0
+    from ..rules_parse import RelabelLedger, parse_summary
+
+    for v in (2, 3, 4):
+        # vectorString echoes the constructor argument, so the schema's pattern must hold for every
+        # *accepted* string: the raw-acceptance facts (prefix literal, untransformed fields, two-way
+        # split, table-checked key and value) are discharged here
+        keep = ("C04.raw", "C04.prefix", "C04.store.raw", "C04.store.split", "C04.store.key", "C04.store.value")
+        parse_summary(ctx, v, RelabelLedger(led, "C10.vectorString.accept", keep=keep, strip="C04."))
     for v in (2, 3, 4):
         n += RJ.check_c10(ctx, led, v)
         RS.check_range(ctx, led, v, "C10.range")
